@@ -20,6 +20,8 @@ type Case struct {
 	Output int              `json:"output"`
 	Prod   bool             `json:"prod"`
 	Family string           `json:"family,omitempty"`
+	// the modules are declared from the last to the first (every reference points forward in the list)
+	Reversed bool `json:"reversed,omitempty"`
 }
 
 func describe(g modgen.GraphSpec) string {
@@ -78,6 +80,13 @@ func inputsExistAtInit(g modgen.GraphSpec, i int) bool {
 func Eval(cs Case) (*core.Fail, bool) {
 	g := cs.Graph
 	mods := g.Build()
+	if cs.Reversed {
+		// declaration order is not part of a graph's meaning: list the modules from the last to the first, so that
+		// every reference (input, block filter) points forward in the list
+		for i, j := 0, len(mods.Modules)-1; i < j; i, j = i+1, j-1 {
+			mods.Modules[i], mods.Modules[j] = mods.Modules[j], mods.Modules[i]
+		}
+	}
 	if err := manifest.ValidateModules(mods); err != nil {
 		return nil, false // not a valid graph: C17's domain
 	}
@@ -85,7 +94,9 @@ func Eval(cs Case) (*core.Fail, bool) {
 		return nil, false
 	}
 	outName := modgen.Name(cs.Output)
-	desc := func() string { return fmt.Sprintf("[%s] output=%s prod=%v", describe(g), outName, cs.Prod) }
+	desc := func() string {
+		return fmt.Sprintf("[%s] output=%s prod=%v%s", describe(g), outName, cs.Prod, map[bool]string{true: " modules declared in reverse order", false: ""}[cs.Reversed])
+	}
 	closure := g.Closure(cs.Output)
 	wantErr := false
 	for i := range closure {
@@ -223,6 +234,9 @@ func Run(ctx *core.Ctx) int {
 						if !emit(Case{Graph: g, Output: out, Prod: prod}) {
 							return false
 						}
+						if prod && !emit(Case{Graph: g, Output: out, Prod: prod, Reversed: true}) {
+							return false
+						}
 					}
 				}
 				return true
@@ -242,7 +256,7 @@ func Run(ctx *core.Ctx) int {
 			graphs++
 			for out := range g {
 				for _, prod := range []bool{false, true} {
-					if !emit(Case{Graph: g, Output: out, Prod: prod, Family: n}) {
+					if !emit(Case{Graph: g, Output: out, Prod: prod, Family: n}) || !emit(Case{Graph: g, Output: out, Prod: prod, Family: n, Reversed: true}) {
 						return
 					}
 				}
@@ -255,7 +269,7 @@ func Run(ctx *core.Ctx) int {
 	ctx.Cov["graphs"] = graphs
 	ctx.Cov["distinct_nontrivial"] = st.NonTrivial
 	ctx.Cov["exhaustive"] = true
-	ctx.Cov["rule"] = "every module list of n<=3 (thorough: + n=4 with inits {0,5} and no params, n=5 with one initial block, sources {none,block}, no deltas) over kind {map,store,index} x source {none,block,clock} x params-first x inputs subset of earlier modules (map input; store input get/deltas) x block filter {none, an earlier index} x initial block {0,1,5}; plus 6 families of 4-8 modules (ladder, diamond, wide store layer, index fan-out, mixed); every module as output, both modes. Only graphs accepted by the real ValidateModules + NewModuleGraph are judged. Oracle: independent DFS closure; staged exactly once; every input/filter dependency in a strictly earlier layer; layers homogeneous; store layers close their stage; staging errors exactly when a needed module has no input at its initial block; 30 s watchdog per case. Non-trivial: >=2 layers and a store."
+	ctx.Cov["rule"] = "module lists declared in dependency order and (production mode; families: both modes) in reverse order, where every reference points forward; every module list of n<=3 (thorough: + n=4 with inits {0,5} and no params, n=5 with one initial block, sources {none,block}, no deltas) over kind {map,store,index} x source {none,block,clock} x params-first x inputs subset of earlier modules (map input; store input get/deltas) x block filter {none, an earlier index} x initial block {0,1,5}; plus 6 families of 4-8 modules (ladder, diamond, wide store layer, index fan-out, mixed); every module as output, both modes. Only graphs accepted by the real ValidateModules + NewModuleGraph are judged. Oracle: independent DFS closure; staged exactly once; every input/filter dependency in a strictly earlier layer; layers homogeneous; store layers close their stage; staging errors exactly when a needed module has no input at its initial block; 30 s watchdog per case. Non-trivial: >=2 layers and a store."
 	ctx.Assume = []string{"first streamable block 0", "wall-clock watchdog of 30 s per case (normal latency: microseconds)"}
 	return ctx.Finish(core.JSONRecheck(ctx.Prop, Eval))
 }
